@@ -162,7 +162,13 @@ def main(run):
     q = [np.array([0.1])]
     for t in range(16 if not thorough else 90):
         new, replaced, assigns = gen_translation(rng)
-        text = "\n".join("    %s = %s%s" % (n, to_c_top(e, rng), "  # comment" if rng.random() < 0.2 else "") for n, e in assigns)
+        # (a fifth of the lines end in a '#' comment; a quarter carry two C block comments, around the right-hand side)
+        def _line(n, e):
+            rhs = to_c_top(e, rng)
+            if rng.random() < 0.25:
+                return "    %s = /* from the new parameters */ %s /* base units */" % (n, rhs)
+            return "    %s = %s%s" % (n, rhs, "  # comment" if rng.random() < 0.2 else "")
+        text = "\n".join(_line(n, e) for n, e in assigns)
         pdefs = [[n, "", 1.0, [-inf, inf], "", "new parameter " + n] for n in new]
         insert_after = None
         if rng.random() < 0.4:
